@@ -15,7 +15,7 @@ import types
 import z3
 
 from . import val as V
-from .val import SV, Obj, MList, MDict, PDict, PList, norm, lower, deep_symbolic
+from .val import SV, Obj, MList, MDict, PDict, PList, MSet, PSet, norm, lower, deep_symbolic
 
 
 class Unsupported(Exception):
@@ -600,6 +600,8 @@ class Interp:
 
     def st_For(self, st, env, module):
         it = self.eval(st.iter, env, module)
+        if isinstance(it, (set, frozenset)) and len(it) > 1:
+            self.models.order_obligation(self, "for loop", st.lineno)
         handled = self.models.symbolic_for(self, st, it, env, module)
         if handled:
             return
@@ -836,7 +838,7 @@ class Interp:
             if mm and name in mm:
                 return ModelMethod(o, mm[name], name)
             return self.class_attr(o, o.cls, name)
-        if isinstance(o, (SV, MList, MDict, V.MDefaultDict, V.DDEntry)):
+        if isinstance(o, (SV, MList, MDict, V.MDefaultDict, V.DDEntry, MSet)):
             return self.models.sym_attr(self, o, name)
         if isinstance(o, (Closure, BoundMethod)):
             if name == "__name__":
